@@ -693,7 +693,7 @@ func (g *pathGen) multiName() string {
 
 // step renders one path step; single reports whether it keeps a path single-valued.
 func (g *pathGen) step() (text string, single bool) {
-	if g.aware && g.cur != nil && chance(80) {
+	if g.aware && g.cur != nil && chance(88) {
 		if t, s, ok := g.awareStep(); ok {
 			return t, s
 		}
@@ -752,6 +752,23 @@ func genPathFor(doc interface{}, funcs uint32, trap bool, maxSteps, maxFuncs int
 		g.aware = false
 	}
 	for i := 0; i < n; i++ {
+		if g.aware && i > 0 {
+			// nothing below a scalar; and once the path left the known part of the document
+			// further steps are mostly misses
+			switch g.cur.(type) {
+			case map[string]interface{}, []interface{}:
+			case nil:
+				if rn(10) < 6 {
+					n = i
+					continue
+				}
+			default:
+				if rn(10) < 9 {
+					n = i
+					continue
+				}
+			}
+		}
 		t, single := g.step()
 		if s == "" && strings.HasPrefix(t, ".") && !strings.HasPrefix(t, "..") {
 			t = t[1:]
@@ -931,6 +948,9 @@ func genCfg(allowAccessor bool) CfgSpec {
 	}
 	if allowAccessor && chance(30) {
 		c.Accessor = true
+	}
+	if c.Funcs != 0 && chance(30) {
+		c.Variant = 1 + rn(2)
 	}
 	return c
 }
